@@ -272,10 +272,12 @@ fn explore_f<L: Tab>(l: &mut Local, mode: Mode, st: bool, f: &TT, g: Grp, meta: 
                     for (p, m) in group::generators(f.n, g) {
                         inputs.push((apply(&rep, &p, m), "generator-image"));
                     }
+                    // the history first (f has just been canonized): !f, !f, f, f
                     let nf = f.not();
-                    inputs.push((nf.clone(), "history"));
-                    inputs.push((nf, "history"));
-                    inputs.push((f.clone(), "history"));
+                    inputs.insert(0, (f.clone(), "history"));
+                    inputs.insert(0, (f.clone(), "history"));
+                    inputs.insert(0, (nf.clone(), "history"));
+                    inputs.insert(0, (nf, "history"));
                     for (x, kind) in inputs {
                         l.states += 1;
                         match check_cert::<L>(&x, g) {
@@ -621,7 +623,8 @@ fn family_section(run: &Run, mode: Mode, n: usize, g: Grp, count: usize, meta_ev
                 fn ex<L: Tab>(l: &mut Local, mode: Mode, st: bool, f: &TT, g: Grp, meta: bool) {
                     explore_f::<L>(l, mode, st, f, g, meta, None)
                 }
-                let meta = meta_every > 0 && (k as usize) % meta_every == 0;
+                // one even (fixed-size type) and one odd (dynamic type) member out of every `meta_every`
+                let meta = meta_every > 0 && (k as usize) % meta_every.max(2) < 2;
                 if k % 2 == 0 {
                     for_static!(n, ex(l, mode, true, f, g, meta));
                 } else {
